@@ -437,6 +437,34 @@ def run(ctx):
                  sample={'programs': progs, 'servers': servers, 'steps': len(r['ran']), 'outcomes': r['outs']})
         ctx.count('par.steps', len(r['ran']))
         oracle(ctx, servers, rl, rh, progs, r, 'two user threads')
+    ends_tie(ctx)
+
+
+def ends_tie(ctx):
+    """Tie of Model/C16Ends.lean (driver `ends.seq`, guard=1 = the current code) to a real Connection on a
+    fake socket module.  The observation script replaces globals of minecraft.networking.connection for the
+    whole life of its interpreter, hence a subprocess: harness/xcheck/c16ends_xcheck.py <N> <seed> prints
+    `request<TAB>expected` lines (all randomness from the seed drawn here from ctx.rng)."""
+    import os
+    import subprocess
+    import sys
+    import lib
+    script = os.path.join(os.path.dirname(os.path.dirname(os.path.abspath(__file__))), 'xcheck', 'c16ends_xcheck.py')
+    n = ctx.scale(1500, 20000)
+    seed = ctx.rng.getrandbits(48)
+    env = dict(os.environ, PYCRAFT_REPO=lib.REPO, PYTHONDONTWRITEBYTECODE='1')
+    p = subprocess.run([sys.executable, script, str(n), str(seed), '1'], capture_output=True, text=True, env=env, timeout=600)
+    pairs = [l.split('\t') for l in p.stdout.splitlines()]
+    if p.returncode != 0 or len(pairs) != n or any(len(x) != 2 for x in pairs):
+        ctx.disagree('ends.seq: the real-code observation script could not run against this tree',
+                     [script, n, seed], None, (p.stderr or p.stdout)[-1500:])
+        return
+    for (req, exp), mo in zip(pairs, ctx.driver.ask([q for q, _ in pairs])):
+        ctx.case(('ends.seq', req))
+        ctx.count('ends.seq.ops', len(req.split()) - 4)
+        if mo != exp:
+            ctx.disagree('ends.seq vs a real Connection on a fake socket module', req, mo, exp)
+    ctx.extra['c16ends_pairs'] = ctx.extra.get('c16ends_pairs', 0) + len(pairs)
 
 
 def flush_histories(ctx, C):
